@@ -215,7 +215,7 @@ def child_node(ex, label, maybe_none):
     return c
 
 
-def run_class(C, slots, all_fields, other_kinds=None, sub_slots=()):
+def run_class(C, slots, all_fields, other_kinds=None, sub_slots=(), top_flags=False):
     other_kinds = other_kinds or {}
     """symbolically executes query_traversal on an arbitrary node of class C. returns (outcomes, executor)"""
     from mindsdb_sql.parser.ast.base import ASTNode
@@ -310,7 +310,10 @@ def run_class(C, slots, all_fields, other_kinds=None, sub_slots=()):
             ev.result = [r1, r2]
             return [r1, r2]
         ex.stubs[(MODULE, FUNC)] = rec
-        return [node, cb], {'parent_query': pq}
+        kw = {'parent_query': pq}
+        if top_flags:
+            kw.update(is_table=True, is_target=True)      # the node itself sits in table / target position: its children do not inherit that
+        return [node, cb], kw
     return pysym.explore_function(MODULE, FUNC, make_args, ex=pysym.Executor(max_paths=6000))
 
 
@@ -497,6 +500,61 @@ def analyse_class(rep, C, slots, before, printed, aliased, all_fields, finder, o
         else:
             rep.failed(oid, 'pysym', msg, function=fn, clause=clause, replay=finder(oid, C))
     rep.census[f'paths.{cname}'] = len(outs)
+
+
+def flags_passdown(rep, C, slots, all_fields, other_kinds):
+    """the flags of a node are its own: when the walker is entered with is_table / is_target set (the node itself is a table reference / a
+    select-list item), its children are still visited with exactly the flags of their own slot"""
+    cname = C.__name__
+    oid = f'C13.flags.own.{cname}'
+    clause = 'children are visited with is_table / is_target of their slot, not with the flags the node itself was visited with'
+    fn = f'{MODULE}:{FUNC}'
+    try:
+        outs, ex = run_class(C, slots, all_fields, other_kinds, sub_slots=('query',), top_flags=True)
+    except (Unsupported, PathLimit) as e:
+        rep.undecided(oid, 'pysym', f'{type(e).__name__}: {e}'[:200], function=fn, clause=clause)
+        return
+    bad = None
+    for o in outs:
+        if o.kind == 'raise':
+            continue
+        for slot, ev, in_loop in flatten(o.log, o.state):
+            if getattr(ev, 'none', False) or slot == '?none' or slot not in slots:
+                continue
+            want_table = (cname, slot) in TABLE_SLOTS
+            want_target = (cname, slot) in TARGET_SLOTS
+            if bool(ev.is_table) != want_table or bool(ev.is_target) != want_target:
+                bad = f'child slot {slot} of a {cname} that is itself a table / select-list item is visited with is_table={ev.is_table!r}, is_target={ev.is_target!r} (expected {want_table}, {want_target})'
+                break
+        if bad:
+            break
+    if bad:
+        rep.failed(oid, 'pysym', bad, function=fn, clause=clause, replay=replay_flags_own(cname))
+    else:
+        rep.proved(oid, 'pysym', f'{len(outs)} path(s)', function=fn, clause=clause)
+
+
+def replay_flags_own(cname):
+    from mindsdb_sql import parse_sql
+    from mindsdb_sql.planner.utils import query_traversal
+    from mindsdb_sql.parser import ast as A
+    for sql in ('select cast(a as int), b from t1', 'select a + 1, -b, f(c), case when d then e end, (select g from t2) from t1', 'select * from (select a from t) as x join t2 on x.a = t2.a'):
+        q = parse_sql(sql)
+        flagged = []
+
+        def cb(node, is_table=False, is_target=False, **kw):
+            if is_target:
+                flagged.append(node)
+        query_traversal(q, cb)
+        tops = []
+
+        def collect(node, **kw):
+            if isinstance(node, A.Select) and node.targets:
+                tops.extend(node.targets)
+        query_traversal(parse_sql(sql), collect)
+        if len(flagged) != len(tops):
+            return {'input': sql, 'dialect': 'mindsdb', 'fires': True, 'observed': f'nodes flagged as targets: {[str(n) for n in flagged]}', 'expected': f'exactly the {len(tops)} select-list items'}
+    return {'input': 'select lists with casts / operators / functions', 'dialect': 'mindsdb', 'fires': False, 'observed': 'only select-list items are flagged'}
 
 
 def check_list_replacement(f, sh, child, final, o):
@@ -808,6 +866,7 @@ def check(rep, tier):
         aliased = aliased_slots(C, samples, slots)
         n_slots += len(slots)
         analyse_class(rep, C, slots, before, printed, aliased, all_fields, finder, other_kinds)
+        flags_passdown(rep, C, slots, all_fields, other_kinds)
     rep.census['node_classes'] = len(classes)
     rep.census['child_slots'] = n_slots
     rep.notes.append('Walker contract checked per node class by symbolic execution (all list lengths, all None-ness combinations, arbitrary visitor results).')
